@@ -4,6 +4,7 @@ package main
 
 import (
 	"fmt"
+	"sort"
 	"go/ast"
 	"go/token"
 	"go/types"
@@ -626,7 +627,12 @@ func (fx *FuncExec) loopHead(st *State, ls loopSpec, pos token.Pos, bodyPos toke
 		}
 	}
 	head := st.clone()
+	var mvs []*types.Var
 	for v := range modLoc {
+		mvs = append(mvs, v)
+	}
+	sort.Slice(mvs, func(i, j int) bool { return mvs[i].Pos() < mvs[j].Pos() })
+	for _, v := range mvs {
 		k := varKey(v)
 		if _, ok := head.vars[k]; !ok {
 			continue // declared inside the loop
@@ -655,7 +661,8 @@ func (fx *FuncExec) loopHead(st *State, ls loopSpec, pos token.Pos, bodyPos toke
 		}
 	}
 	fx.havocHeap(head, cs)
-	for c, o := range oldAl {
+	for _, c := range sortedStrKeys(oldAl) {
+		o := oldAl[c]
 		srt := strings.TrimPrefix(c, "AL_")
 		head.assume(fmt.Sprintf("(forall ((r %s)) (=> (select %s r) (select %s r)))", srt, o, head.vars[c]))
 	}
